@@ -46,7 +46,8 @@ package soy
 // and added, and the data-reference check, the globals pass and the message
 // pass ran on it - in that order, each failure ending the compilation.
 //@ func (*Bundle).Compile
-//@   props C07 C01
+//@   props C07 C01 C13
+//@   note goroutine (*Bundle).recompiler: the development-mode file watcher is started only after the registry is complete and handed out; it takes no part in this compilation (it swaps in a later one)
 //@   nosafety
 //@   noterm
 //@   modifies *
@@ -65,3 +66,9 @@ package soy
 //@   at call parsepasses.ProcessMessages#0 after set msgsDone = true
 //@   ensures[registry-only-after-all-passes;C07,C01] result1 == nil ==> result0 != nil && checked && checkErr == nil && globalsSet && globalsErr == nil && msgsDone
 //@   ensures[failure-yields-no-registry;C07] result1 != nil ==> result0 == nil
+
+// C13: the watcher loop of development mode (WatchFiles(true)); it waits for
+// file-system events and compiles a NEW bundle sequentially each time.
+//@ trusted (*Bundle).recompiler -- development-mode watcher loop: outside the compile / generate path
+//@   note goroutine select#0: waits for the next file-system event or the close of the watcher; each recompilation it triggers is itself a sequential Compile
+//@   modifies *
